@@ -167,6 +167,13 @@ def rand_template(r, profile="c16", nfiles=None, rich_ok=True):
                 items.append(rand_if(r))
             elif profile in ("c17", "mixed"):
                 items.append(rand_for(r))
+                if r.random() < 0.25:
+                    # a second loop right behind, possibly one without usable arguments
+                    f2 = rand_for(r)
+                    if r.random() < 0.5:
+                        f2["param"] = "<<<%s>>>" % r.choice(USER_TAGS)
+                        f2["sparam"] = spec_param(f2["param"])
+                    items.append(f2)
             else:
                 items.append(rand_line(r, GLOBAL_TAGS, 0.4, 1))
         name = r.choice(["TEMPLATE%s.h", "I_template_%s.py", "temPlate%s.cs", "Test.TEMPLATE.%s.cpp", "template%s.txt"]) % r.choice(["A", "B", "Impl", "X1"])
